@@ -9,3 +9,44 @@ package crypto
 //@   ensures [strict-needs-explicit-backend] config.Strictmode && old(client.config.Storage) == "" ==> !isNilIface(result)
 //@   call (*Crypto).setupFSBackend #2 requires !config.Strictmode
 //@   ensures [lenient-defaults-to-fs] !config.Strictmode && old(client.config.Storage) == "" ==> did(call (*Crypto).setupFSBackend #2)
+
+// ---- C17: signed tokens need exactly one allowed asymmetric signature by the right key ----
+
+//@ func JWTKidAlg
+//@   prop C17
+//@   modifies nothing
+//@   ensures [parsed] isNilIface(result.2) ==> isNilIface(ret(call jws.ParseString #1).1) && arg(call jws.ParseString #1, 0) == tokenString
+//@   ensures [exactly-one-signature] isNilIface(result.2) ==> len(ret(call (jws.Message).Signatures #1)) == 1
+//@   ensures [kid-alg-of-that-signature] isNilIface(result.2) ==>
+//@           result.0 == ret(call (jws.Message).Signatures #1)[0].ProtectedHeaders().KeyID()
+//@        && result.1 == ret(call (jws.Message).Signatures #1)[0].ProtectedHeaders().Algorithm()
+
+//@ func ParseJWT
+//@   prop C17 C01
+//@   call jwt.ParseString #1 requires [verify-with-resolved-key-and-supported-alg]
+//@        arg(0) == tokenString
+//@     && did(call JWTKidAlg #1) && arg(call JWTKidAlg #1, 0) == tokenString && isNilIface(ret(call JWTKidAlg #1).2)
+//@     && kid == ret(call JWTKidAlg #1).0 && alg == ret(call JWTKidAlg #1).1
+//@     && did(call f #1) && arg(call f #1, 0) == kid && isNilIface(ret(call f #1).1) && key == ret(call f #1).0
+//@     && jwx.IsAlgorithmSupported(alg)
+//@     && len(arg(1)) >= 2
+//@     && arg(1)[len(arg(1))-2] == ret(call jwt.WithKey #1) && arg(call jwt.WithKey #1, 0) == jwa.KeyAlgorithm(alg) && arg(call jwt.WithKey #1, 1) == key
+//@     && arg(1)[len(arg(1))-1] == ret(call jwt.WithVerify #1) && arg(call jwt.WithVerify #1, 0) == true
+//@   cover call jwt.ParseString #1
+//@   ensures [success-only-via-verified-parse] isNilIface(result.1) ==> did(call jwt.ParseString #1) && isNilIface(ret(call jwt.ParseString #1).1) && result.0 == ret(call jwt.ParseString #1).0
+
+//@ func ParseJWS
+//@   prop C17
+//@   call (jws.Verifier).Verify #1 requires [verify-with-supported-alg-and-resolved-key]
+//@        jwx.IsAlgorithmSupported(alg)
+//@     && alg == ret(call (jws.Headers).Algorithm #1) && kid == ret(call (jws.Headers).KeyID #1)
+//@     && arg(0) == ret(call jws.NewVerifier #1).0 && arg(call jws.NewVerifier #1, 0) == alg && isNilIface(ret(call jws.NewVerifier #1).1)
+//@     && did(call f #1) && isNilIface(ret(call f #1).1) && arg(call f #1, 0) == kid && arg(3) == ret(call f #1).0
+//@     && arg(2) == ret(call (jws.Signature).Signature #1)
+//@   ensures [compact-form-only] isNilIface(result.1) ==> isNilIface(ret(call jws.SplitCompact #1).3) && isNilIface(ret(call jws.Parse #1).1)
+
+// ---- C03: the node never puts a private key into a JWS header ----
+//@ func SignJWS
+//@   prop C03
+//@   call jws.Sign #* requires [no-private-jwk-header] isNilIface(headers.JWK()) || (did(call (jwk.Key).Raw #1) && !isNilIface(ret(call (jwk.Key).Raw #1)))
+//@   call jws.Sign #* requires [key-from-caller-only] did(call jws.WithKey #1) || did(call jws.WithKey #2)
